@@ -1,3 +1,4 @@
+import OpacusLean.Generated.ClipFactor
 import OpacusLean.Lemmas.ClipReal
 import OpacusLean.Lemmas.ClipExec
 import OpacusLean.Lemmas.ClipGhost
@@ -294,5 +295,33 @@ theorem sensitivity_without_independence_counterexample :
     simp only [gsub, batchSum_apply, gradSamples, G, clipped, factors, gscale]
     simp [List.range_succ, e3, e2, f3, f2]
     norm_num
+
+
+/-- closes `generated factor = clipFactor` up to harmless rewrites (`1` vs `1.0`, either operand order of `min`,
+`clamp_max`, commuted sums) -/
+macro "clip_close" : tactic =>
+  `(tactic| first
+    | rfl
+    | (norm_num [min_comm]; done)
+    | (rw [min_comm]; norm_num; done)
+    | (norm_num [min_comm, add_comm]; done)
+    | (congr 1 <;> norm_num <;> ring_nf))
+
+/-- the tie to the source: the per-sample clip factor as written at its five sites (`DPOptimizer`, per-layer, distributed
+per-layer, AdaClip, ghost clipping), re-translated on every run (`Generated/ClipFactor.lean`), is the model's
+`clipFactor C n = min 1 (C / (n + 1e-6))`, and every norm that feeds it is a 2-norm -/
+theorem generated_clip_factor_eq_model (C n : ℝ) :
+    Opacus.Generated.ClipFactor.flat C n = clipFactor C n ∧
+    Opacus.Generated.ClipFactor.perLayer C n = clipFactor C n ∧
+    Opacus.Generated.ClipFactor.ddpPerLayer C n = clipFactor C n ∧
+    Opacus.Generated.ClipFactor.adaClip C n = clipFactor C n ∧
+    Opacus.Generated.ClipFactor.ghost C n = clipFactor C n ∧
+    (∀ e ∈ Opacus.Generated.ClipFactor.normOrders, e.2 ≠ [] ∧ ∀ p ∈ e.2, p = 2) := by
+  refine ⟨?_, ?_, ?_, ?_, ?_, by decide⟩
+  · simp only [Opacus.Generated.ClipFactor.flat, clipFactor]; clip_close
+  · simp only [Opacus.Generated.ClipFactor.perLayer, clipFactor]; clip_close
+  · simp only [Opacus.Generated.ClipFactor.ddpPerLayer, clipFactor]; clip_close
+  · simp only [Opacus.Generated.ClipFactor.adaClip, clipFactor]; clip_close
+  · simp only [Opacus.Generated.ClipFactor.ghost, clipFactor]; clip_close
 
 end Opacus.C02
